@@ -82,6 +82,22 @@ func c15Setup(e *c15Env, s c15Scene) ref.Scene {
 	return sc
 }
 
+// c15ToVBlank steps the PPU until the v-blank of the frame being drawn begins (every visible line is in the
+// frame buffer, none of the next frame's lines has overwritten it yet). If a v-blank is in progress it first
+// runs to the start of the next frame.
+func c15ToVBlank(m *machine.M) bool {
+	for i := 0; i < 1200 && m.Map.Read(0xff41)&3 == 1; i++ {
+		m.P.EndMachineCycle()
+	}
+	for i := 0; i < 18000; i++ {
+		if m.Map.Read(0xff41)&3 == 1 {
+			return true
+		}
+		m.P.EndMachineCycle()
+	}
+	return false
+}
+
 // c15Compare compares the emitted frame with the reference composition.
 func c15Compare(e *c15Env, sc *ref.Scene, s c15Scene, when string) *explore.Fail {
 	m := e.m
@@ -106,8 +122,8 @@ func c15Check(l *explore.Local, e *c15Env, s c15Scene) *explore.Fail {
 	m := e.m
 	sc := c15Setup(e, s)
 	m.Map.Write(0xff40, sc.LCDC)
-	for i := 0; i < 17556+120; i++ {
-		m.P.EndMachineCycle()
+	if !c15ToVBlank(m) {
+		return explore.Failf("harness: the PPU never reaches v-blank", "LCDC=%02x", sc.LCDC)
 	}
 	if f := c15Compare(e, &sc, s, ""); f != nil {
 		return f
@@ -116,6 +132,59 @@ func c15Check(l *explore.Local, e *c15Env, s c15Scene) *explore.Fail {
 	l.Eval(1)
 	l.Trans(1)
 	l.Outcome(explore.HashBytes(pix[:160*4*8]) ^ explore.HashBytes(pix[160*4*72:160*4*80]))
+	return nil
+}
+
+// c15Edit: the display keeps running; scene A (a uniform background of tile T, scrolled by SCYa, plus two objects)
+// is shown for a frame, then during v-blank SCY becomes SCYb and ONE byte of tile T's data (or of the tile map) is
+// rewritten; the next two frames are compared with the composition of the edited VRAM. Any copy of VRAM contents
+// the renderer keeps between fetches must notice every such write.
+type c15Edit struct {
+	SCYa, SCYb uint8
+	Addr       uint16 `json:"addr"` // VRAM address rewritten
+	Val        uint8  `json:"val"`
+	Set        int    `json:"set"`
+}
+
+func c15EditCheck(l *explore.Local, _ *c15Env, q c15Edit) *explore.Fail {
+	e := &c15Env{}
+	e.load(q.Set)
+	m := e.m
+	const tile = 5
+	for i := 0; i < 0x400; i++ { // uniform background map
+		e.vram[0x1800+i] = tile
+		m.Map.Write(0x9800+uint16(i), tile)
+	}
+	objs := []c15Obj{{60, 40, 9, 0x00}, {100, 120, 10, 0x10}}
+	sa := c15Scene{LCDC: 0x13, SCX: 0, SCY: q.SCYa, BGP: 0xe4, OBP0: 0xe4, OBP1: 0x1b, Objs: objs, Set: q.Set}
+	sc := c15Setup(e, sa)
+	m.Map.Write(0xff40, sc.LCDC)
+	for i := 0; i < 144*114+60; i++ { // into v-blank of the first frame
+		m.P.EndMachineCycle()
+	}
+	if m.Map.Read(0xff41)&3 != 1 {
+		return explore.Failf("harness: not in v-blank where the scene is edited", "STAT=%02x", m.Map.Read(0xff41))
+	}
+	m.Map.Write(0xff42, q.SCYb)
+	m.Map.Write(q.Addr, q.Val)
+	e.vram[q.Addr-0x8000] = q.Val
+	if got := m.Map.Read(q.Addr); got != q.Val {
+		return nil // VRAM not writable here: outside this part
+	}
+	sc.SCY = q.SCYb
+	sb := sa
+	sb.SCY = q.SCYb
+	for fr := 2; fr <= 3; fr++ {
+		if !c15ToVBlank(m) {
+			return explore.Failf("harness: the PPU never reaches v-blank", "LCDC=%02x", sc.LCDC)
+		}
+		if f := c15Compare(e, &sc, sb, fmt.Sprintf("frame %d, after VRAM %04x<-%02x and SCY %d->%d were written in the v-blank of frame 1: ", fr, q.Addr, q.Val, q.SCYa, q.SCYb)); f != nil {
+			return f
+		}
+		l.Trans(1)
+	}
+	l.Eval(1)
+	l.Outcome(uint64(q.Addr)<<8 | uint64(q.SCYb))
 	return nil
 }
 
@@ -141,12 +210,9 @@ func c15SeqCheck(l *explore.Local, _ *c15Env, q c15Seq) *explore.Fail {
 	}
 	sc := c15Setup(e, q.B)
 	m.Map.Write(0xff40, sc.LCDC)
-	for i := 0; i < 120; i++ {
-		m.P.EndMachineCycle()
-	}
 	for fr := 1; fr <= q.Frames; fr++ {
-		for i := 0; i < 17556; i++ {
-			m.P.EndMachineCycle()
+		if !c15ToVBlank(m) {
+			return explore.Failf("harness: the PPU never reaches v-blank", "LCDC=%02x", sc.LCDC)
 		}
 		if f := c15Compare(e, &sc, q.B, fmt.Sprintf("frame %d after the LCD was switched on: ", fr)); f != nil {
 			return f
@@ -191,7 +257,7 @@ func c15Classify(sc *ref.Scene, want *[144][160]uint8, x, y int, got uint8) stri
 func init() {
 	register("C15", "model_checking", func(c *Ctx) {
 		if c.R != nil {
-			c.R.Rule = "each scene (registers, VRAM, OAM written through the Mapper with the LCD off, then LCD on for one frame of real PPU cycles) is compared pixel by pixel (160x144 RGBA) with the reference DMG composition; the scene family is a union of complete products: background/window product (tile map x addressing x SCX x SCY x window position x window map x palettes), single-object product (X at every clipping amount on the left/right edges x Y at every clipping amount on the top/bottom edges x flips x palette x priority), object-pair product (dx, dy, priorities, transparency), ten objects on a line; tile data is one of 3 fixed sets of 384 distinct patterns selected by VERIF_SEED"
+			c.R.Rule = "each scene (registers, VRAM, OAM written through the Mapper with the LCD off, then LCD on for one frame of real PPU cycles) is compared pixel by pixel (160x144 RGBA) with the reference DMG composition; the scene family is a union of complete products: background/window product (tile map x addressing x SCX x SCY x window position x window map x palettes), single-object product (X at every clipping amount on the left/right edges x Y at every clipping amount on the top/bottom edges x flips x palette x priority), object-pair product (dx, dy, priorities, transparency), ten objects on a line; one VRAM byte rewritten in v-blank between two frames of a running display; tile data is one of 3 fixed sets of 384 distinct patterns selected by VERIF_SEED"
 			c.R.Assumptions = []string{"preconditions of the statement: LCD and background enabled, 8x8 objects, at most 10 per line, OAM in X order, WX 7-166, constant scene", "quick tier uses a reduced scroll/window value set; every product that is enumerated is enumerated completely"}
 		}
 		set := ((c.Seed % 3) + 3) % 3
@@ -336,6 +402,31 @@ func init() {
 					}
 				}
 			}, func() *c15Env { return &c15Env{} }, c15Check)
+		// one VRAM byte rewritten between two frames of a running display
+		explore.Product(c.R, "vram-edit-between-frames", explore.PartOpt{Bound: "one frame of scene A, one byte written in v-blank, two frames compared; fresh emulator per case",
+			Domain: "uniform background of one tile x SCY before/after in 0..7 (thorough: also 8 further values) x each of the tile's 16 data bytes rewritten with 2 values; one tile-map byte at 4 positions"},
+			func(yield func(c15Edit) bool) {
+				scys := []uint8{0, 1, 2, 3, 4, 5, 6, 7}
+				if th {
+					scys = append(scys, 8, 9, 15, 16, 100, 143, 248, 255)
+				}
+				for _, a := range scys {
+					for _, b := range scys {
+						for k := 0; k < 16; k++ {
+							for _, v := range []uint8{0x00, 0xff} {
+								if !yield(c15Edit{SCYa: a, SCYb: b, Addr: 0x8000 + 5*16 + uint16(k), Val: v, Set: set}) {
+									return
+								}
+							}
+						}
+						for _, ma := range []uint16{0x9800, 0x9813, 0x9a20, 0x9a33} {
+							if !yield(c15Edit{SCYa: a, SCYb: b, Addr: ma, Val: 7, Set: set}) {
+								return
+							}
+						}
+					}
+				}
+			}, func() *c15Env { return nil }, c15EditCheck)
 		// scene after scene on one instance: the LCD is switched off at many points of scene A's frame
 		offs := []int{-1, 1, 19, 20, 61, 113, 114, 10*114 + 30, 72*114 + 5, 100*114 + 70, 143*114 + 113, 144 * 114, 150*114 + 7, 17555, 17556, 17556 + 114*80 + 3}
 		frames := 2
